@@ -265,6 +265,15 @@ impl TypeSerialize {
         if self.type_map.contains_key(t) {
             return Ok(());
         }
+        if let TypeInner::Knot(id) = t.as_ref() {
+            // A recursive Rust type met below the root it was derived from (the memo may
+            // have been filled by an earlier `T::ty()` of another, mutually recursive type):
+            // make sure the type the knot stands for has a table entry of its own, `encode`
+            // looks it up by exactly this type.
+            let ty = types::internal::find_type(id)
+                .ok_or_else(|| Error::msg("knot TypeId not found"))?;
+            return self.build_type(&ty);
+        }
         let actual_type = if let TypeInner::Var(id) = t.as_ref() {
             self.env.rec_find_type(id)?
         } else {
